@@ -19,6 +19,10 @@ MechDoc(doc, fdocs, k) ==
                       conds |-> [c \in 1..Len(doc.conds) |-> CombinedCond(doc.conds[c], f.conds[1], prefix)]],
                      fdocs, k + 1)
 UsName(fdoc) == \E j \in 1..Len(fdoc.dets) : fdoc.dets[j].name[1] = CH_US
+\* second recorded deviation of the same mechanism, seen from the rule's side: a selector pattern of the RULE
+\* that starts with an underscore (the way to select the rule's own underscore names) also matches the filter's
+\* detections, which live in the rule under names starting with '_filt_'
+UsPattern(cond) == IsSubstr(<<32, CH_US>>, cond) /\ IsSubstr(<<111,102,32,CH_US>>, cond)      \* "of _"
 
 \* the pipeline of the cases with pipe = TRUE appends _x to every field name
 RECURSIVE SufQ(_, _)
@@ -46,6 +50,9 @@ RuleClauses(o, r) ==
                         ELSE IF (\E k \in 1..Len(fdocs) : UsName(fdocs[k])) /\
                                 LET m == RuleDen(MechDoc(rule.doc, fdocs, 1), c, FALSE) IN m.st = "ok" /\ QEquiv(m.e, g.e)
                              THEN D("Dev_FilterUnderscoreNameLosesShield")
+                        ELSE IF UsPattern(rule.doc.conds[c]) /\
+                                LET m == RuleDen(MechDoc(rule.doc, fdocs, 1), c, FALSE) IN m.st = "ok" /\ QEquiv(m.e, g.e)
+                             THEN D("Dev_RuleUnderscorePatternReachesFilter")
                         ELSE IF got[c] = o.plain.out[r][c] THEN C("AppliesIff")
                         ELSE C("MeansRuleAndFilter")], LAMBDA cl : cl.name # "")]
 Clauses(o) == Concat([r \in 1..Len(o.rules) |-> Concat(RuleClauses(o, r))])
